@@ -240,7 +240,9 @@ type zoo struct {
 }
 
 func (z *zoo) leaf() reflect.Type {
-	switch z.g.d(9) {
+	switch z.g.d(10) {
+	case 9:
+		return reflect.TypeOf([]byte(nil))
 	case 0:
 		return reflect.TypeOf(int64(0))
 	case 1:
@@ -409,6 +411,17 @@ func (z *zoo) fill(v reflect.Value, depth int) {
 			v.Set(p)
 		}
 	case reflect.Slice:
+		if t.Elem().Kind() == reflect.Uint8 {
+			// []byte: base64 in JSON; lengths on both sides of the 3-byte groups
+			if g.d(6) != 0 {
+				b := make([]byte, g.d(26))
+				for i := range b {
+					b[i] = byte(g.d(256))
+				}
+				v.SetBytes(b)
+			}
+			return
+		}
 		if g.d(5) != 0 {
 			n := g.d(4)
 			if depth > 3 {
@@ -456,11 +469,18 @@ func (z *zoo) fill(v reflect.Value, depth int) {
 
 func (z *zoo) iface(depth int) interface{} {
 	g := z.g
-	k := g.d(8)
+	k := g.d(9)
 	if depth > 4 && k >= 5 {
 		k = 1
 	}
 	switch k {
+	case 8:
+		// a value with POINTER-receiver marshalers held in an interface: never addressable,
+		// wherever the enclosing struct is reached from
+		if z.cb {
+			return CbPtr{X: g.d(100)}
+		}
+		return nil
 	case 0:
 		return nil
 	case 1:
